@@ -25,7 +25,7 @@ type Hub struct {
 	Dsm   *server.DsManager
 	PfxE  string // CURIE prefix the store assigned to ExE
 	PfxS  string
-	Full  *FullHub // non-nil for hub-level profiles
+	Full  *FullHub               // non-nil for hub-level profiles
 	Logs  *observer.ObservedLogs // when knob observeLogs=1: warnings and errors the hub logged
 }
 
